@@ -62,6 +62,7 @@ fn main() {
         "C16" => cworld::cases_c16(&mut rng, count, tier),
         "C09" => c09::cases(&mut rng, count, tier),
         "C10" => c10::cases(&mut rng, count, tier),
+        "C10m" => c10::cases_m(&mut rng, count, tier),
         "C11" => c11::cases(&mut rng, count, tier),
         "C11d" => c11::cases_deep(&mut rng, count, tier),
         "C12" => c12::cases(&mut rng, count, tier),
